@@ -18,15 +18,16 @@ from vlib.sim import Sim
 
 PROPERTY = 'C04'
 RULE = ('streams = handshake-coalescing prefix or established session, then KEEPALIVE / marked UPDATE / '
-        'body-malformed UPDATE / ROUTE-REFRESH, optionally one framing violation (marker, length, type), trailer, '
+        'body-malformed UPDATE / ROUTE-REFRESH, optionally one framing violation (marker, length, type, per-type length), trailer, '
         'truncated tail; each delivered whole and under 1-cuts, 2-cuts, byte-wise and random cuts. Non-trivial = '
         'a message boundary strictly inside a segment or a segment boundary strictly inside a message; '
         'distinct by (stream, segmentation).')
 ASSUMPTIONS = [
     'simnet transport semantics: after the agent calls loseConnection no further peer data is delivered',
     'the expected reaction to a framing violation is NOTIFICATION(1, subcode) then close; data field not compared',
-    'length values 19..4096 that are below a type-specific minimum are not used as the violating frame '
-    '(the property names only the bounds 19 and 4096)',
+    'per-type lengths of RFC 4271 6.1 are violations for OPEN (< 29), NOTIFICATION (< 21) and KEEPALIVE (!= 19); an UPDATE '
+    'below 23 octets is a malformed UPDATE body, which this agent tolerates (C10), and ROUTE-REFRESH lengths are not '
+    'used as the violating frame (RFC 2918 defines no reaction)',
 ]
 EXHAUSTIVE = {'quick': False, 'thorough': False}
 
@@ -60,6 +61,8 @@ def encode_item(it):
         return bytes(m) + b'\x00\x13\x04'
     if k == 'XL':    # bad length field: declared length, type, number of body octets actually present
         return rc.MARKER + bytes([it[1] >> 8, it[1] & 0xFF, it[2]]) + FILL * it[3]
+    if k == 'XS':    # known type, length inside 19..4096 but not what RFC 4271 6.1 allows for that type (OPEN, NOTIFICATION, KEEPALIVE)
+        return rc.frame(it[1], FILL * it[2])
     if k == 'XT':    # unknown type: type octet, body length
         return rc.frame(it[1], FILL * it[2])
     if k == 'RAW':   # arbitrary header (grid): declared length, type, body octets present
@@ -220,6 +223,8 @@ def _viol_kind(items):
             return 'len<19' if it[1] < 19 else 'len>4096'
         if it[0] == 'XT':
             return 'type'
+        if it[0] == 'XS':
+            return 'typed-len'
         if it[0] == 'RAW':
             return 'raw'
     return 'none'
@@ -259,6 +264,7 @@ violation = st.one_of(
     st.tuples(st.just('XL'), st.one_of(st.integers(0, 18), st.integers(4097, 65535), st.sampled_from([0, 1, 18, 4097, 65535])),
               st.sampled_from([1, 2, 3, 4, 5, 128]), st.integers(0, 12)).map(list),
     st.tuples(st.just('XT'), st.sampled_from([0, 6, 7, 127, 129, 255]), st.sampled_from([0, 1, 4, 10])).map(list),
+    st.sampled_from([['XS', 4, 1], ['XS', 4, 7], ['XS', 4, 300], ['XS', 1, 0], ['XS', 1, 9], ['XS', 3, 0], ['XS', 3, 1]]),
 )
 
 
@@ -397,9 +403,10 @@ def check_grid_case(case):
     raw = items[1]
     ln, ty = raw[1], raw[2]
     violation3 = ln < 19 or ln > 4096 or ty not in rc.KNOWN_TYPES
-    if violation3:
-        c2 = dict(case)
-        return check_case_with(case, stream, [('keepalive',)], (2 if (ln < 19 or ln > 4096) else 3))
+    # per-type lengths of RFC 4271 6.1 (UPDATE below its minimum is a malformed UPDATE body for this agent: C10)
+    typed = (ty == 4 and ln != 19) or (ty == 1 and ln < 29) or (ty == 3 and ln < 21)
+    if violation3 or typed:
+        return check_case_with(case, stream, [('keepalive',)], (3 if (19 <= ln <= 4096 and ty not in rc.KNOWN_TYPES) else 2))
     sigs = []
     base = None
     for cuts in case['cuts']:
@@ -428,7 +435,7 @@ def check_case_with(case, stream, exp, sub):
     sigs = []
     base = None
     items = case['items']
-    vk = 'len<19' if items[1][1] < 19 else ('len>4096' if items[1][1] > 4096 else 'type')
+    vk = 'len<19' if items[1][1] < 19 else ('len>4096' if items[1][1] > 4096 else ('type' if sub == 3 else 'typed-len'))
     for cuts in case['cuts']:
         obs = deliver('est', stream, sorted(set(x for x in cuts if 0 < x < len(stream))))
         tag = 'whole' if not cuts else 'cut'
